@@ -47,6 +47,72 @@ theorem C18_early_exit_writes_nothing (i : Input)
   cases hg : i.gen <;> simp [preExit]
   simp [hf, hl, hg] at h
 
+/-! ### with I/O errors (no hypothesis on `writeErr` / `cleanErr`): what is still guaranteed -/
+
+/-- whatever happens — I/O errors included — the file-system effect of a run is: a PREFIX of its outputs written (each one
+    completely, by C17), then a PREFIX of Clean's removals, and removals only after all outputs are in place -/
+theorem C18_effects_are_prefixes (i : Input) :
+    ∃ j k, (run i).2 = (i.outputs.take j).map .write ++ (i.removes.take k).map .remove ∧ (0 < k → j = i.outputs.length) := by
+  unfold run
+  cases hf : preExit i.flags with
+  | some e => exact ⟨0, 0, by simp, by omega⟩
+  | none =>
+    cases hl : preExit i.load with
+    | some e => exact ⟨0, 0, by simp, by omega⟩
+    | none =>
+      cases hg : preExit i.gen with
+      | some e => exact ⟨0, 0, by simp, by omega⟩
+      | none =>
+        obtain ⟨j, hj, hjl⟩ := writeAll_prefix i.outputs i.writeErr
+        simp only
+        cases hfail : (writeAll i.outputs 0 i.writeErr).2 with
+        | true => exact ⟨j, 0, by simp [hj], by omega⟩
+        | false =>
+          have hjl' := hjl hfail
+          by_cases he : i.outputs.isEmpty = true
+          · exact ⟨0, 0, by simp [he], by omega⟩
+          · simp only [Bool.false_eq_true, ↓reduceIte, he]
+            cases hc : i.cleanErr with
+            | none => exact ⟨j, i.removes.length, by simp [hj], fun _ => hjl'⟩
+            | some k => exact ⟨j, k, by simp [hj], fun _ => hjl'⟩
+
+/-- an I/O error in the k-th notedownSrc: exit 1, the k outputs before it are in place, nothing else has happened
+    (so a run with more than one output is NOT all-or-nothing under I/O errors) -/
+theorem C18_write_error (i : Input) (hf : i.flags = .pass) (hl : i.load = .pass) (hg : i.gen = .pass) (k : Nat)
+    (hw : i.writeErr = some k) (hk : k < i.outputs.length) :
+    run i = (.fatal, (i.outputs.take k).map .write) := by
+  unfold run
+  simp only [hf, hl, hg, preExit, hw, writeAll_err i.outputs 0 k (Nat.zero_le _)]
+  simp [hk]
+
+/-- a run with a single output (every `-type=T` run, every all-in-one run without superseded files) is all-or-nothing
+    even when the write fails: non-zero exit, nothing changed — unless Clean fails -/
+theorem C18_single_output_all_or_nothing (i : Input) (h1 : i.outputs.length ≤ 1) (hc : i.cleanErr = none)
+    (hexit : (run i).1 ≠ .ok) : (run i).2 = [] := by
+  cases hw : i.writeErr with
+  | none => exact C18_no_change_on_failure i hw hc hexit
+  | some k =>
+    unfold run at hexit ⊢
+    cases hf : preExit i.flags with
+    | some e => simp
+    | none =>
+      cases hl : preExit i.load with
+      | some e => simp
+      | none =>
+        cases hg : preExit i.gen with
+        | some e => simp
+        | none =>
+          simp only [hf, hl, hg, hw, hc, writeAll_err i.outputs 0 k (Nat.zero_le _)] at hexit ⊢
+          by_cases hk : k - 0 < i.outputs.length
+          · have hk0 : k = 0 := by omega
+            subst hk0
+            have hpos : 0 < i.outputs.length := by omega
+            simp [hpos]
+          · simp only [hk, ↓reduceIte] at hexit ⊢
+            by_cases he : i.outputs.isEmpty = true
+            · simp [he]
+            · simp [he] at hexit
+
 /-- exit status is 0, 1 or 2 -/
 theorem C18_exit_codes (i : Input) : (run i).1.code = 0 ∨ (run i).1.code = 1 ∨ (run i).1.code = 2 := by
   cases h : (run i).1 <;> simp [Exit.code]
@@ -117,8 +183,8 @@ example : WF { outputs := ["x"], removes := ["y"] } = true := by decide
 
 example : specOK (run { gen := .panic }) = false ∧ (run { gen := .panic }).2 = [] := by decide
 
-/-- (a Clean error — only a real I/O error since /repo 63484d4 — is the one modelled way to exit 1 after the writes;
-    it is excluded by the hypotheses of `C18_no_change_on_failure`) -/
+/-- (a Clean error — only a real I/O error since /repo 63484d4 — and a write error after the first output are the modelled
+    ways to exit 1 after a write; `C18_effects_are_prefixes`, `C18_write_error` say what holds then) -/
 example : run { outputs := ["a.shootnew.go"], removes := ["z.shootnew.old.go"], cleanErr := some 0 }
     = (.fatal, [.write "a.shootnew.go"]) := by decide
 
